@@ -9,7 +9,32 @@ import sys
 import c19_sched as S
 
 NAMES = ["a0", "a1", "a2", "a3", "a4", "a5"]
+# attribute names that are parameter / closure names of the library's own wrappers (the lazy
+# __new__ hook, the pass-through it leaves behind, placeholders, generated methods): a keyword of
+# that name handed to the constructor must reach __init__ on the lazy class as on the eager one
+COLLIDING = ["cls", "args", "kwargs", "owner", "instance", "new", "orig_new", "bootstrapper", "metadata",
+             "attr", "value", "key", "name", "attrs", "method", "other"]
 _SETUP = {}
+
+
+def names_of(desc):
+    return desc.get("names") or NAMES
+
+
+def mids_of(desc):
+    """indices i such that a plain class M<i>(C<i>) stands between C<i> and C<i+1>"""
+    return [i for i, c in enumerate(desc["classes"]) if c.get("mid") is not None]
+
+
+def targets_of(desc):
+    """everything a first use can address: spec classes, the plain classes between them, the plain subclass"""
+    k = len(desc["classes"])
+    out = []
+    for i in range(k):
+        out.append(i)
+        if desc["classes"][i].get("mid") is not None:
+            out.append(f"m{i}")
+    return out + (["sub"] if desc.get("sub") else [])
 
 
 def setup():
@@ -35,6 +60,16 @@ def render(desc, eager):
     """desc: {"classes": [{"attrs": [[name, form, dk, init, repr, cmp, typ]], "key": n|None,
     "frozen": b, "new": b}], "sub": None | {"new": b}}"""
     out = ["import dataclasses", "from typing import List", "from spec_classes import spec_class, Attr", ""]
+    NAMES = names_of(desc)  # noqa: N806 - per-description attribute names
+
+    def new_def(tag):
+        # parameter names that cannot collide with an attribute name handed over as keyword
+        return ["    def __new__(_cls_, *_a_, **_k_):",
+                "        self = super().__new__(_cls_)",
+                f"        object.__setattr__(self, '_made_by', getattr(self, '_made_by', ()) + ({tag},))",
+                "        return self"]
+
+    parent = ""
     for i, c in enumerate(desc["classes"]):
         args = []
         if c.get("key") is not None:
@@ -46,8 +81,11 @@ def render(desc, eager):
         if eager:
             args.append("bootstrap=True")
         out.append(f"@spec_class({', '.join(args)})" if args else "@spec_class")
-        out.append(f"class C{i}({'C%d' % (i - 1) if i else ''}):".replace("()", ""))
+        out.append(f"class C{i}({parent}):".replace("()", ""))
+        parent = f"C{i}"
         body = []
+        if c.get("priv"):  # private annotation: not managed by spec-classes
+            body.append("    _cache: dict = None")
         for n, form, dk, ini, rep, cmp_, typ in c["attrs"]:
             ann = "List[int]" if typ == "list" else "int"
             name = NAMES[n]
@@ -70,20 +108,22 @@ def render(desc, eager):
                 ctor = "Attr" if form == "attr" else "dataclasses.field"
                 body.append(f"    {name}: {ann} = {ctor}({', '.join(kw)})")
         if c.get("new"):
-            body += ["    def __new__(cls, *args, **kwargs):",
-                     "        self = super().__new__(cls)",
-                     f"        object.__setattr__(self, '_made_by', getattr(self, '_made_by', ()) + ({i},))",
-                     "        return self"]
+            body += new_def(i)
         out += body or ["    pass"]
         out.append("")
+        if c.get("mid") is not None and i + 1 < len(desc["classes"]):
+            # a plain (undecorated) class between two lazily decorated spec classes
+            out.append(f"class M{i}(C{i}):")
+            out += ["    def describe(self):", "        return type(self).__name__"]
+            if c["mid"].get("new"):
+                out += new_def(100 + i)
+            out.append("")
+            parent = f"M{i}"
     if desc.get("sub"):
         k = len(desc["classes"])
         out.append(f"class PS(C{k - 1}):")
         if desc["sub"].get("new"):
-            out += ["    def __new__(cls, *args, **kwargs):",
-                    "        self = super().__new__(cls)",
-                    f"        object.__setattr__(self, '_made_by', getattr(self, '_made_by', ()) + ({k},))",
-                    "        return self"]
+            out += new_def(k)
         else:
             out.append("    pass")
         out.append("")
@@ -96,16 +136,42 @@ def build(desc, eager):
     src = render(desc, eager)
     exec(compile(src, "<c19-classes>", "exec"), ns)  # noqa: S102 - generated source
     classes = [ns[f"C{i}"] for i in range(len(desc["classes"]))]
+    classes = ClassList(classes)
+    classes.mids = {i: ns[f"M{i}"] for i in range(len(classes)) if f"M{i}" in ns}
     return classes, ns.get("PS"), src
+
+
+class ClassList(list):
+    """the spec classes of a description; .mids = {i: plain class between C<i> and C<i+1>}"""
+    mids = {}
+
+
+def make_cmap(classes, sub):
+    """class object -> number: spec class i -> i, plain subclass -> k, plain class above C<i> -> 100 + i"""
+    cmap = {id(c): i for i, c in enumerate(classes)}
+    if sub is not None:
+        cmap[id(sub)] = len(classes)
+    for i, m in getattr(classes, "mids", {}).items():
+        cmap[id(m)] = 100 + i
+    return cmap
 
 
 # ------------------------------------------------------------------ uses
 def target(classes, sub, tgt):
-    return sub if tgt == "sub" else classes[tgt]
+    if tgt == "sub":
+        return sub
+    if isinstance(tgt, str):  # "m<i>": the plain class between C<i> and C<i+1>
+        return classes.mids[int(tgt[1:])]
+    return classes[tgt]
 
 
 def model_tgt(desc, tgt):
-    return len(desc["classes"]) - 1 if tgt == "sub" else tgt
+    """the class of the model's chain a use of `tgt` is a use of (plain classes are transparent)"""
+    if tgt == "sub":
+        return len(desc["classes"]) - 1
+    if isinstance(tgt, str):
+        return int(tgt[1:])
+    return tgt
 
 
 def helper_attr(desc, tgt):
@@ -114,8 +180,20 @@ def helper_attr(desc, tgt):
     for c in reversed(desc["classes"][:k + 1]):
         for a in c["attrs"]:
             if a[6] == "int":
-                return NAMES[a[0]]
+                return names_of(desc)[a[0]]
     return None
+
+
+def kw_for(desc, tgt):
+    """constructor keywords for class tgt: every visible attribute all of whose declarations accept it"""
+    k = model_tgt(desc, tgt)
+    ok, typ = {}, {}
+    for c in desc["classes"][:k + 1]:
+        for a in c["attrs"]:
+            ok[a[0]] = ok.get(a[0], True) and bool(a[3])
+            typ[a[0]] = a[6]
+    names = names_of(desc)
+    return {names[n]: ([n, n + 1] if typ[n] == "list" else 40 + n) for n in sorted(ok) if ok[n]}
 
 
 def describe_attrs(attrs, cmap, intern):
@@ -146,6 +224,15 @@ def make_thunk(desc, classes, sub, use, cmap, intern):
         o = T()
         return [intern("r:" + repr(o)), intern("m:" + repr(getattr(o, "_made_by", ())))]
 
+    def instkw():
+        # the constructor's keyword form as FIRST use: the keywords travel through the lazy
+        # __new__ hook (and every __new__ below it) before __init__ sees them
+        kw = kw_for(desc, tgt)
+        mark(("new", k))
+        o = T(**kw)
+        return [intern("r:" + repr(o)), intern("m:" + repr(getattr(o, "_made_by", ()))),
+                intern("v:" + repr(sorted((n, getattr(o, n, "<unset>")) for n in kw)))]
+
     def helper():
         a = helper_attr(desc, tgt)
         mark(("new", k))
@@ -161,12 +248,36 @@ def make_thunk(desc, classes, sub, use, cmap, intern):
         m = T.__spec_class__
         return describe_meta(m, cmap, intern)
 
+    def later_lookups():
+        """what the SAME lookups give afterwards (no trigger any more), and dataclasses.fields"""
+        import dataclasses
+        out = [-7]
+        try:
+            f2 = T.__dataclass_fields__
+            out += [intern("ft:" + type(f2).__name__)] + describe_attrs(f2, cmap, intern)
+        except Exception as e:  # noqa: BLE001
+            out += [intern("E:" + type(e).__name__)]
+        try:
+            out += [-8, intern("dc:" + repr([(f.name, f.init, f.repr, f.compare) for f in dataclasses.fields(T)]))]
+        except Exception as e:  # noqa: BLE001
+            out += [-8, intern("E:" + type(e).__name__)]
+        return out
+
     def fields():
         mark(("lookup", k, True))
         f = T.__dataclass_fields__
-        return describe_attrs(f, cmap, intern)
+        return [intern("ft:" + type(f).__name__)] + describe_attrs(f, cmap, intern) + later_lookups()
 
-    return {"inst": inst, "helper": helper, "meta": meta, "fields": fields}[kind]
+    def dcfields():
+        # dataclasses.fields(cls) as first use: one lookup of __dataclass_fields__ made by the
+        # standard library, which then iterates over .values() of what it got
+        import dataclasses
+        mark(("lookup", k, True))
+        fs = dataclasses.fields(T)
+        return [intern("dc:" + repr([(f.name, f.init, f.repr, f.compare) for f in fs]))] + later_lookups()
+
+    return {"inst": inst, "instkw": instkw, "helper": helper, "meta": meta, "fields": fields,
+            "dcfields": dcfields}[kind]
 
 
 def new_kind(cls):
@@ -216,7 +327,7 @@ def describe_class(cls, cmap, intern):
     return out
 
 
-def model_meta(cls, cmap):
+def model_meta(cls, cmap, NAMES=NAMES):  # noqa: N803
     """eager metadata in the model's vocabulary"""
     from spec_classes.types import MISSING
     m = cls.__dict__["__spec_class__"]
@@ -236,8 +347,10 @@ class Interner:
         return self.d.setdefault(s, len(self.d) + 10)
 
 
-def post_use(classes, sub, intern):
-    """what a later sequential user sees: instances of the leaf (and of the plain subclass).
+def post_use(classes, sub, intern, desc=None):
+    """what a later sequential user sees: instances of every class of the hierarchy (leaf first, then
+    the plain subclass, the plain classes in between and the parents), built without arguments
+    and - the constructor's keyword form as a LATER use - with every accepted keyword.
     Runs in a helper thread with a time limit: after a broken run a traced lock can stay held
     by a thread that died at the recursion limit (the Python-level __exit__ of the traced
     lock needs a frame, the real RLock does not)."""
@@ -246,12 +359,21 @@ def post_use(classes, sub, intern):
     out = []
 
     def work():
-        for T in ([classes[-1]] + ([sub] if sub is not None else [])):
-            try:
-                o = T()
-                out.extend([1, intern("r:" + repr(o)), intern("m:" + repr(getattr(o, "_made_by", ())))])
-            except BaseException as e:  # noqa: BLE001
-                out.extend([0, intern("E:" + type(e).__name__)])
+        k = len(classes)
+        order = [(classes[-1], k - 1)] + ([(sub, k - 1)] if sub is not None else [])
+        if desc is not None:
+            order += [(m, i) for i, m in sorted(getattr(classes, "mids", {}).items(), reverse=True)]
+            order += [(classes[i], i) for i in range(k - 2, -1, -1)]
+        for T, i in order:
+            kws = [{}] + ([kw_for(desc, i)] if desc is not None and kw_for(desc, i) else [])
+            for kw in kws:
+                try:
+                    o = T(**kw)
+                    out.extend([1, intern("r:" + repr(o)), intern("m:" + repr(getattr(o, "_made_by", ())))])
+                    if hasattr(o, "describe"):
+                        out.append(intern("d:" + repr(o.describe())))
+                except BaseException as e:  # noqa: BLE001
+                    out.extend([0, intern("E:" + type(e).__name__)])
 
     th = threading.Thread(target=work, daemon=True)
     th.start()
@@ -263,18 +385,16 @@ def post_use(classes, sub, intern):
 
 def run_eager(desc, uses, intern):
     classes, sub, _ = build(desc, True)
-    cmap = {id(c): i for i, c in enumerate(classes)}
-    if sub is not None:
-        cmap[id(sub)] = len(classes)
+    cmap = make_cmap(classes, sub)
     outs = []
     for u in uses:
         try:
             outs.append([1] + make_thunk(desc, classes, sub, u, cmap, intern)())
         except BaseException as e:  # noqa: BLE001
             outs.append([0, intern("E:" + type(e).__name__)])
-    post = post_use(classes, sub, intern)
+    post = post_use(classes, sub, intern, desc)
     descs = [describe_class(c, cmap, intern) for c in classes] + [post]
-    metas = [model_meta(c, cmap) for c in classes]
+    metas = [model_meta(c, cmap, names_of(desc)) for c in classes]
     return outs, descs, metas
 
 
@@ -282,10 +402,8 @@ def run_lazy(desc, uses, policy, intern, timeout=2.0):
     st = setup()
     fresh_locks()
     classes, sub, _ = build(desc, False)
-    cmap = {id(c): i for i, c in enumerate(classes)}
+    cmap = make_cmap(classes, sub)
     k = len(classes)
-    if sub is not None:
-        cmap[id(sub)] = k
     ph = {}
     for i, c in enumerate(classes):
         for n in ("__spec_class__", "__dataclass_fields__"):
@@ -321,13 +439,13 @@ def run_lazy(desc, uses, policy, intern, timeout=2.0):
             outs.append([1] + o[1])
         else:
             outs.append([0, intern("E:" + o[1])])
-    post = post_use(classes, sub, intern)
+    post = post_use(classes, sub, intern, desc)
     descs = [describe_class(c, cmap, intern) for c in classes] + [post]
     return r, outs, descs, k
 
 
 # ------------------------------------------------------------------ protocol events
-def extract(log, k, scfile):
+def extract(log, k, scfile, NAMES=NAMES):  # noqa: N803
     """protocol events (tid, Coq term of BootstrapModel.ev) in execution order"""
     n = len(log)
     nxt = [None] * n
@@ -356,7 +474,21 @@ def extract(log, k, scfile):
         return e is not None and e[2][0] == scfile and e[2][2] == "__get__"
 
     def leaf(c):
+        # a plain class stands for the spec class it derives from (same placeholders / wrapper
+        # found along its MRO): the plain subclass (k) for the leaf, M<i> (100 + i) for C<i>
+        if c is not None and c >= 100:
+            return c - 100
         return k - 1 if c == k else c
+
+    def unpack_line(e):
+        # first line of the wrapper and of the pass-through: `cls, args = args[0], args[1:]`
+        return e[2][0] == scfile and e[2][2] == "__new__" and text(e).startswith("cls, args = args[0]")
+
+    def next_real_line(i):
+        for e in following(i):
+            if not unpack_line(e):
+                return e
+        return None
 
     def b(x):
         return "true" if x else "false"
@@ -383,7 +515,7 @@ def extract(log, k, scfile):
             if data[0] == "lookup":
                 ev.append((tid, f"ETest {data[1]} {b(data[2])} {b(is_get(next_line(i)))}"))
             elif data[0] == "new":
-                e = next_line(i)
+                e = next_real_line(i)
                 w = e[2][3][1] if (e is not None and wrapper_test(e)) else None
                 ev.append((tid, f"EWNext {data[1] + 1} " + ("None" if w is None else f"(Some {w})")))
                 if w is None:
@@ -441,7 +573,7 @@ def extract(log, k, scfile):
                 elif t.startswith("hasattr(") and s["hasattr"]:
                     s["hasattr"] = False
                     if extra[3] is not None:
-                        ev.append((tid, f"ETest {extra[3]} false {b(is_get(next_line(i)))}"))
+                        ev.append((tid, f"ETest {leaf(extra[3])} false {b(is_get(next_line(i)))}"))
                 elif t.startswith("metadata = SpecClassMetadata.for_class(spec_cls)"):
                     ev.append((tid, f"EInherit {c}"))
                 elif t.startswith("spec_cls.__spec_class__ = metadata"):
